@@ -69,6 +69,7 @@ func runC36(r *core.Run, faults bool) {
 		ctx := context.Background()
 		w := newWorld(r, 1)
 		w.ias = []addr.IA{ia111, ia111, ia111, ia112} // most chains belong to the AS that generates signers
+		w.shareKeys = r.Chance("pool.sharekeys", 1, 2)
 		// chain pool: both ASes share the CA pool; mis-issued chains are present in the store as well
 		w.populate(2+r.Choice("pool.cas", 3), 4+r.Choice("pool.chains", 9), 1+r.Choice("pool.keys", 3), r.Chance("pool.misissue", 1, 2))
 		ia := ia111
@@ -305,6 +306,7 @@ func runC36(r *core.Run, faults bool) {
 				}
 			}
 		}
+		w.sample.Accepted = generated
 		r.Nontrivial = generated > 0
 	})
 }
